@@ -1,14 +1,14 @@
 CONSTANTS
   Fam = "mac"
-  NM = 1
-  KindSet = {"obj", "f0", "f1", "f2", "fv", "f1v"}
-  MaxBody = 3
+  NM = 3
+  KindSet = {"obj", "f0", "f1", "f2"}
+  MaxBody = 4
   MaxInv = 6
-  BodyAlpha = {"x", "y", "V", "#x", "#y", "#V", "#", "##", "f", "a", "1"}
-  InvAlpha = {"f", "a", "(", ")", ","}
+  BodyAlpha = {"x", "y", "##", "f", "g", "fg", "a", "(", ")", ","}
+  InvAlpha = {"f", "g", "fg", "a", "(", ")", ","}
   VarWs = FALSE
   InvHead = TRUE
-  InvBal = TRUE
+  InvBal = FALSE
   NameScheme = 1
   MaxLines = 1
   MaxNest = 1
